@@ -19,8 +19,15 @@ import DadiVerif.Model.LowPass
    lp_projmix0 nseq nsub          -> ok row;row;…|maxdiff  Hardy–Weinberg mixture of individual-subsampling rows (limit of the F > 0 branch of
                                                          projection_matrix at F = 0⁺) and its exact largest distance from the hypergeometric rows
    lp_defined cov nseq nsub       -> ok a,b,c            nocallOk, hetErrOk, probEnoughOk as 0/1 (generated definedness conditions)
+   lp_simtable pops af nsim blocks -> ok <nd>|n,n,…|fit   simulate_GATK_multisample_calling(cov, af, nseq, nsub, nsim, Fx) as a function of the recorded
+                                                         random draws; n = int(nsim·probability) per aggregate partition; fit = drawsFit as 0/1
+                                                         (af = a.b.…; blocks = block|block|…, one per aggregate partition in itertools.product order;
+                                                          block = loci#sels; loci = locus;locus;… or `-`; locus = pop/pop/…; pop = d:b,d:b,… (depth : binomial
+                                                          draw, one per individual); sels = pop/pop/…; pop = sel,sel,… or `-`; sel = i.i.… positions among the
+                                                          sorted called genotypes, in the order subsample_genotypes_1D returns its rows)
    errors: err odd (odd haplotype number), err F (F = 1 or outside [0,1)), err size, err cov, err missing-sim,
-           err nan (a generated definedness condition fails: the code would evaluate 0 ** -1 or x / 0) -/
+           err nan (a generated definedness condition fails: the code would evaluate 0 ** -1 or x / 0; lp_simtable: no locus simulated, 0/0),
+           err draws (lp_simtable: the draws do not have the shape the sizes require) -/
 namespace DadiVerif.Driver.LowPass
 open DadiVerif DadiVerif.Proto DadiVerif.LowPass
 
@@ -60,8 +67,43 @@ def parseSims (s : String) : Option (List (List Nat × Array Rat)) :=
           some (i, v.toArray)
       | _ => none
 
+def parseInd (s : String) : Option IndDraw :=
+  match s.splitOn ":" with
+  | [d, b] => do let d ← d.toNat?; let b ← b.toNat?; some (d, b)
+  | _ => none
+
+def parseLocus (s : String) : Option (List (List IndDraw)) :=
+  (s.splitOn "/").mapM fun p => (p.splitOn ",").mapM parseInd
+
+def parseSels (s : String) : Option (List (List (List Nat))) :=
+  (s.splitOn "/").mapM fun p => if p = "-" then some [] else (p.splitOn ",").mapM fun sel => parseNatList sel "."
+
+def parseBlock (s : String) : Option BlockDraw :=
+  match s.splitOn "#" with
+  | [loci, sels] => do
+      let loci ← if loci = "-" then some [] else (loci.splitOn ";").mapM parseLocus
+      let sels ← parseSels sels
+      some { loci := loci, sels := sels }
+  | _ => none
+
 def handle (toks : List String) : Option String :=
   match toks with
+  | ["lp_simtable", pops, af, nsim, blocks] => do
+      let pops ← (pops.splitOn ";").mapM parsePop
+      let af ← parseNatList af "."
+      let nsim ← parseRat nsim
+      let blocks ← (blocks.splitOn "|").mapM parseBlock
+      match pops.findSome? popErr with
+      | some e => some e
+      | none =>
+        if af.length ≠ pops.length then some "err size" else
+        match simBinned pops af blocks with
+        | none => some "err draws"
+        | some binned =>
+          if binned.isEmpty then some "err nan" else
+          let shapeOut := pops.map fun p => p.nsub + 1
+          some ("ok " ++ showND (ND.ofFn shapeOut (tableOf binned)) ++ "|" ++
+            ",".intercalate ((simCounts pops af nsim).map toString) ++ "|" ++ b2s (drawsFit pops af blocks))
   | ["lp_part", x, n, minv, maxv] => do
       let x ← x.toNat?; let n ← n.toNat?; let minv ← minv.toNat?; let maxv ← maxv.toNat?
       let G := part x n minv maxv
